@@ -67,7 +67,7 @@ std::optional<Track::byte> read_byte(const Track::BitStream& bits, size_t& pos,
   unsigned int data=0;
   for (int bitnum = 0; bitnum < 8; ++bitnum)
     {
-      if (pos + 2 >= bits.size())
+      if (pos + 2 > bits.size())
 	{
 	  error = "unexpected end-of-track";
 	  return std::nullopt;
